@@ -65,11 +65,12 @@ CHECKS = {
    note=TB + 'hand models Model/OpText, AsmEval tied by correspondence (72k ops/run); opcode tables covered by exhaustive e2e only', ref='§8 C02'),
  'C06': dict(cat='proof', technique='Lean 4: kernel-decided equality of the C and Python dispatch tables (translated from both sources each run) + per-closure equivalence contended/plain by a generic tactic + lock-step differential execution of 4 implementations',
    text='The seven C dispatch tables equal the seven Python tables slot by slot (1792 rows, decide +kernel on regenerated definitions); CMIOSimulator dispatches to the same closure as Simulator for every opcode sequence; '
-        'one step of the Python contended simulator agrees with the plain one on registers, flags, memory, PC, IFF, IM, HALT and port sequences for every closure but three (explicit exclusion). '
+        'one step of the Python contended simulator agrees with the plain one on registers, flags, memory, PC, IFF, IM, HALT and port sequences for every closure (BIT n,(HL): F bits 5/3 uncompared, the property\'s own MEMPTR exemption; HALT and LD A,I/R under the decidable frame-layout condition CfgOk, proved for both machines); '
+        'runs of any length stay related as long as no clock-reading closure (HALT, LD A,I/R) or BIT n,(HL) is executed. '
         'The C handler bodies and run loops are NOT translated: per-slot differential against the generated model and lock-step programs (48K/128K, interrupts) are checked correspondence.',
    note=TB + 'translators py2lean.py/cdispatch.py trusted, validated per slot each run; C bodies by differential execution only', ref='§8 C06'),
  'C19': dict(cat='proof', technique='Lean 4 theorems over the model regenerated from cmiosimulator.py (generic tactic per closure) and a hand model of the delay tables (tied exhaustively) + contended-vs-plain oracle on the real simulators',
-   text='Per closure: contended = plain on registers/flags/memory/PC/interrupt state/port sequence and never fewer T-states (3 closures excluded explicitly); outside the display window every closure takes exactly the plain T-states; '
+   text='Per closure, no exclusions: contended = plain on registers/flags/memory/PC/interrupt state/port sequence (F bits 5/3 of BIT n,(HL) aside) and never fewer T-states; outside the display window every closure takes exactly the plain T-states; the window constants of CMIOSimulator.__init__ are tied to the model and proved sound and tight; '
         'delays are sums of table entries in 0..6, zero when no address is contended; the tables follow the 6,5,4,3,2,1,0,0 pattern on the 48K/128K frame layouts (all 69888+70908 entries compared with the Python lists each run). '
         'The per-instruction cycle breakdown itself is tied between the Python and C copies by differential execution at all phases, not proved against documentation.',
    note=TB + 'translator validated per slot; Model/Contend.lean tied exhaustively (tables) and by correspondence (fold functions)', ref='§8 C19'),
@@ -79,6 +80,11 @@ CHECKS = {
         '#POKES frame, #LET visibility, leftmost-first expansion and position independence. Termination is not claimed (fuel-monotone _partial). '
         'Argument tokenisers and the ASM/HTML relation are correspondence/e2e only; the strip asymmetry between the two writers is a known finding.',
    note=TB + 'hand models Model/Macro{Text,Expr,Args,Ops,Expand} tied by correspondence (17k cases/run) on fresh AsmWriter/HtmlWriter instances; MacroBitLemmas imports Mathlib.Data.Int.Bitwise', ref='§8 C17'),
+ 'C12': dict(cat='proof', technique='Lean 4 theorems: symbolic execution of the bin2tap loader bytes in the Z80 model regenerated from simulator.py, induction for parity/pre-fill/fast-load + model/implementation correspondence; end-to-end load is exploration',
+   text='18 theorems: block parity and header layouts; stack pre-fill puts the return frame exactly where loading would destroy it (full strength after the fix: d0144d2); the data loader (8 steps in the generated Z80 model, for all ORG/LENGTH/STACK/START in range) reaches LD-BYTES with IX/DE/A/carry/SP/stack as required; '
+        'LoadTracer.fast_load copies exactly the block; the ROM epilogue returns to START; their composition (no-CLEAR tape loads and starts); one pass of the 128K bank loader pages and calls LD-BYTES; written tapes read back (cites C11). '
+        'The 16K ROM between the proved pieces (BASIC LOAD "", edge sampling, 128K menu) is executed, not reasoned about: the bin2tap->tap2sna claim itself is e2e exploration over an option grid.',
+   note=TB + 'generated Z80 model (translator validated per slot) + hand models Model/Bin2Tap, FastLoad, RomEpilogue tied by correspondence (2.5k cases/run) incl. the ROM bytes the theorems assume', ref='§8 C12'),
 }
 NA = {}
 def main():
